@@ -110,6 +110,100 @@ fn run_t<T: Elem>(case: &mut Case) -> Outcome {
     Outcome::Pass
 }
 
+/// x * 2^k with a single rounding (2f64.powi(k) itself under/overflows for |k| > 1023)
+fn ldexp(x: f64, k: i32) -> f64 {
+    let h = k / 2;
+    x * 2f64.powi(h) * 2f64.powi(k - h)
+}
+
+/// underflow allowance constant: see `run_subnormal`
+const UF_C: f64 = 32.0;
+
+/// "Whatever the magnitudes": f64 systems whose entries are subnormal numbers.  A well-conditioned O(1) system
+/// (A0, b0) is scaled exactly by powers of two, either as a whole (A = s A0, b = s b0, s = 2^-k, 1026 <= k <= 1040:
+/// every entry, pivot and multiplier numerator is subnormal, the solution is unchanged) or by columns
+/// (A = A0 D with d_j in {1, 2^-k}: all pivot candidates of those columns are subnormal, x_j = y_j / d_j is huge).
+/// Judged on the exactly up-scaled system (A', b', y = D x), where Gaussian elimination's backward error is
+/// invariant under such scaling except for underflow: every operation on subnormal operands adds an absolute error
+/// of at most eta = 2^-1074, i.e. 2^(k-1074) relative to the scaled entries, so
+///   be <= BE_C n eps rho  +  UF_C n^2 rho 2^(k-1074) (1 + |y|) / (|A'| |y| + |b'|).
+fn run_subnormal(case: &mut Case) -> Outcome {
+    let n = case.src.urange(1, 6);
+    let (base, kind) = gen_square::<f64>(&mut case.src, n);
+    let k = 1026 + case.src.below(15) as i32;
+    let whole = case.src.coin();
+    // which columns are scaled (column mode): at least one
+    let mut cols: Vec<bool> = (0..n).map(|_| whole || case.src.below(3) == 0).collect();
+    if !cols.iter().any(|c| *c) {
+        let j = case.src.usize_below(n);
+        cols[j] = true;
+    }
+    match cond_inf(&mat_c(&base)) {
+        Some(c) if c <= 1e8 => {}
+        _ => return Outcome::Discard("ill-conditioned-or-singular"),
+    }
+    let y0: Vec<f64> = (0..n).map(|j| f64::cont(&mut case.src) * if !whole && cols[j] { 2f64.powi(-20) } else { 1.0 }).collect();
+    let b0: Vec<f64> = (0..n).map(|i| (0..n).map(|j| base[i][j] * y0[j]).sum::<f64>()).collect();
+    // the system handed to the library
+    let a: M<f64> = (0..n).map(|i| (0..n).map(|j| if cols[j] { ldexp(base[i][j], -k) } else { base[i][j] }).collect()).collect();
+    let b: Vec<f64> = if whole { b0.iter().map(|v| ldexp(*v, -k)).collect() } else { b0.clone() };
+    // ... and its exact up-scaled twin
+    let a_up: M<f64> = (0..n).map(|i| (0..n).map(|j| if cols[j] { ldexp(a[i][j], k) } else { a[i][j] }).collect()).collect();
+    let b_up: Vec<f64> = if whole { b.iter().map(|v| ldexp(*v, k)).collect() } else { b.clone() };
+    case.class(format!("f64 subnormal {} ({})", if whole { "whole system" } else { "columns" }, kind));
+    let ac = mat_c(&a_up);
+    let info = refla::gepp(&ac, None);
+    let kappa = match cond_inf(&ac) {
+        Some(c) if c <= 1e8 => c,
+        _ => return Outcome::Discard("ill-conditioned-or-singular"),
+    };
+    if n >= 2 {
+        case.mark_nontrivial();
+    }
+    case.describe(|| format!("f64 subnormal n={} kind={} k={} whole={} cols={:?} A={:?} b={:?}", n, kind, k, whole, cols, a, b));
+    let bv = to_vector(&b);
+    let mut m1 = to_matrix(&a, n, n);
+    let mut m2 = to_matrix(&a, n, n);
+    let xb = catch(|| m1.solve_basic(&bv));
+    let xl = catch(|| m2.solve_lu(&bv));
+    let (xb, xl) = match (xb, xl) {
+        (Ok(x), Ok(y)) => (x.vec, y.vec),
+        (Err(e), _) => return Outcome::Fail(format!("solve_basic panicked on a nonsingular system with subnormal entries: {}", e)),
+        (_, Err(e)) => return Outcome::Fail(format!("solve_lu panicked on a nonsingular system with subnormal entries: {}", e)),
+    };
+    if xb.len() != n || xl.len() != n {
+        return Outcome::Fail(format!("result length {} / {} != n = {}", xb.len(), xl.len(), n));
+    }
+    if !all_finite(&xb) || !all_finite(&xl) {
+        return Outcome::Fail(format!("non-finite solution component on a system whose exact solution is representable: basic={:?} lu={:?}", xb, xl));
+    }
+    let bc = vec_c(&b_up);
+    let rho = info.growth.max(1.0);
+    let mut ys: Vec<Vec<f64>> = vec![];
+    for (name, x) in [("solve_basic", &xb), ("solve_lu", &xl)] {
+        // y = D x (exact unless it leaves the normal range, which the generator excludes)
+        let y: Vec<f64> = (0..n).map(|j| if !whole && cols[j] { ldexp(x[j], -k) } else { x[j] }).collect();
+        let yc = vec_c(&y);
+        let be = refla::backward_error(&ac, &yc, &bc);
+        let yn = refla::norm_inf_v(&yc);
+        let den = refla::norm_inf_m(&ac) * yn + refla::norm_inf_v(&bc);
+        let uf = n as f64 * n as f64 * rho * ldexp(1.0, k - 1074) * (1.0 + yn) / den.max(1e-300);
+        let bound = BE_C * n as f64 * EPS * rho + UF_C * uf;
+        crate::calib::note("c01.subnormal (be - BE_C n eps rho)/uf", (be - BE_C * n as f64 * EPS * rho) / uf, || format!("{} n={} k={} whole={}", kind, n, k, whole));
+        if !(be <= bound) {
+            return Outcome::Fail(format!("{}: backward error {:.3e} on the exactly up-scaled system > bound {:.3e} (x={:?})", name, be, bound, x));
+        }
+        ys.push(y);
+    }
+    let diff = ys[0].iter().zip(&ys[1]).map(|(p, q)| (p - q).abs()).fold(0.0, f64::max);
+    let yn = ys[0].iter().chain(&ys[1]).fold(0.0f64, |m, v| m.max(v.abs()));
+    let tol = 8.0 * kappa * (BE_C * n as f64 * EPS * rho + UF_C * n as f64 * n as f64 * rho * ldexp(1.0, k - 1074)) * (1.0 + yn);
+    if !(diff <= tol) {
+        return Outcome::Fail(format!("solvers disagree on a subnormal system: |D(x_basic - x_lu)| = {:.3e} > {:.3e} (kappa {:.2e})", diff, tol, kappa));
+    }
+    Outcome::Pass
+}
+
 fn info_growth(ac: &M<refla::C>) -> f64 {
     refla::gepp(ac, None).growth
 }
@@ -192,7 +286,8 @@ impl Prop for C01 {
     fn rule(&self) -> String {
         "random choice streams decode to (element type in {rat,f64,cmplx}, order n in 1..=8 (floats 1..=12 in the thorough tier), \
          matrix kind in {P*L*U, sparse+transversal, planted zero leading pivots, (permuted) triangular, scaled permutation, dense, \
-         tiny leading pivots 2^-27..2^-46, continuous}, optional exact power-of-two row/column scaling 2^+-26, right-hand side, optionally scaled by 2^j with |j| <= 600); \
+         tiny leading pivots 2^-27..2^-46, continuous}, optional exact power-of-two row/column scaling 2^+-26, right-hand side, optionally scaled by 2^j with |j| <= 600); one f64 case in 16 is a subnormal system \
+         (whole system times 2^-k, or chosen columns times 2^-k, 1026 <= k <= 1040, n <= 6, judged on the exactly up-scaled twin with an explicit underflow allowance); \
          singular (rat: exact determinant 0) or ill-conditioned (float: reference cond > 1e10) systems are discarded and counted. \
          Non-trivial: n >= 3 and the reference partial-pivoting elimination performs its a row exchange at some step k >= 1; \
          distinct = distinct sequence of decoded choices."
@@ -203,6 +298,7 @@ impl Prop for C01 {
             "exact rationals are i128 fractions; cases whose arithmetic overflows are discarded, not judged".into(),
             format!("float bound: backward error <= {}*n*eps*max(1,growth of the harness's reference GEPP); residuals evaluated in double-double", BE_C),
             "float systems are restricted to reference condition number <= 1e10 (before diagonal scaling)".into(),
+            format!("subnormal systems: additional allowance {}*n^2*rho*2^(k-1074)*(1+|y|)/(|A'||y|+|b'|) for gradual underflow (absolute error 2^-1074 per operation); complex systems are not generated there (|z|^2 underflows, outside C13's magnitude range)", UF_C),
         ]
     }
     fn stream_len(&self, _tier: Tier) -> usize {
@@ -214,7 +310,13 @@ impl Prop for C01 {
     fn run(&self, case: &mut Case) -> Outcome {
         match case.src.below(3) {
             0 => run_rat(case),
-            1 => run_t::<f64>(case),
+            1 => {
+                if case.src.below(16) == 0 {
+                    run_subnormal(case)
+                } else {
+                    run_t::<f64>(case)
+                }
+            }
             _ => run_t::<Cmplx>(case),
         }
     }
